@@ -27,7 +27,7 @@ EXHAUSTIVE = True
 EXPLANATION = ('Sibling agreement and path rules on the MIR of src/movegen/movegen.rs: loop shape and read set of len() vs the '
                'write set of next(), typestate "partition re-established after the last change" for every mutator, must-pass-through of the partition scan in set_iterator_mask, loop-exit '
                'structure of the removal functions, decision tree and state update of next().')
-NOT_DECIDED = 'that the multiset of yielded moves equals the legal moves (C01); the partition algorithm itself is checked for shape only'
+NOT_DECIDED = 'that the multiset of yielded moves equals the FIDE legal moves as a value property (the structural rules of the list builder are included as R5); the partition algorithm itself is checked for shape only'
 
 MG = 'movegen::movegen::MoveGen'
 NEXT = '<movegen::movegen::MoveGen as core::iter::traits::iterator::Iterator>::next'
@@ -501,3 +501,10 @@ def run(ctx):
     r2(ctx)
     r3(ctx)
     r4(ctx)
+    # R5 ENTRIES (= C01.R2-R4): what the iterator yields is what the list builder pushed: every piece kind dispatched with
+    # the pin and check masks, promotion entries flagged exactly on the seventh rank
+    from . import c01
+    sub = Sub(ctx, {'C01.R2': 'C14.R5', 'C01.R3': 'C14.R5', 'C01.R4': 'C14.R5'})
+    c01.r2(sub)
+    c01.r3(sub)
+    c01.r4(sub)
